@@ -29,6 +29,7 @@ func c11World(tp *Tape, env *Env) (*Plan, *Violation) {
 	var prog *Program
 	if tp.Chance(20, "hubworld") {
 		cfg.WJump, cfg.WJumpE, cfg.WStop = 1, 0, 0
+		cfg.BigRoundsPct = 2
 		prog = g.hubProgram()
 	} else {
 		prog = g.program()
@@ -50,9 +51,17 @@ func c11World(tp *Tape, env *Env) (*Plan, *Violation) {
 	w := World{Readers: distribute(tp, prog, layout, 2)}
 	w.Host = HostSpec{Storer: []string{"rec", "mem", "default"}[tp.Int(0, 2, "storer")], Probes: true, Seed: "s1"}
 	n := tp.Int(3, 24, "nops")
+	if g.bigRounds {
+		n = tp.Int(1200, 3000, "nopsbig") // long enough for a node to be left more than 127 / 255 times
+		env.St.probe("world_with_a_node_left_over_127_times_planned")
+	}
 	var ops []Op
 	slots := 0
 	for i := 0; i < n; i++ {
+		if g.bigRounds && tp.Chance(99, "plainstep") {
+			ops = append(ops, Op{K: "next", Arg: 0})
+			continue
+		}
 		if tp.Chance(8, "snap") {
 			ops = append(ops, Op{K: "snapshot", Slot: slots})
 			slots++
@@ -233,6 +242,12 @@ func c11Exec(plan *Plan, st *Stats) *Violation {
 		}
 		if maxc >= 3 {
 			st.probe("node_left_three_times")
+		}
+		if maxc > 127 {
+			st.probe("node_left_over_127_times")
+		}
+		if maxc > 255 {
+			st.probe("node_left_over_255_times")
 		}
 		for name := range never {
 			if never[name] && name == prev && jumps > 0 {
